@@ -108,6 +108,26 @@ CLAIMED = {
              "oracle from CPython; term evaluator, harness and driver.",
         technique="Lean proof over abstract crypto + symbolic-term T-diff against an independent RFC 5802 server",
     ),
+    "C08": dict(
+        text="Machine-checked: for every well-formed partition log (any number of producers, interleaved "
+             "committed/aborted/open transactions, compaction, solitary and emptied markers), every fetch offset and "
+             "every cut, and every aborted-transaction list obeying the broker contract in any order, the model of "
+             "PartitionRecords._unpack_records delivers at read_committed exactly the non-transactional and committed "
+             "records of the returned range, at read_uncommitted every data record, never a marker (this clause for "
+             "arbitrary batch sequences and index lists), leaves the position one past the last batch, strictly advances "
+             "on every non-empty response, and any session of consecutive fetches concatenates to the same result. No "
+             "theorem is partial. The model is tied to the code on every run by differential execution of the real "
+             "classes on encoded logs (about 15 k fetches quick, 2.6 M thorough, both batch readers, whole sessions "
+             "against an independent reference reader), and the two transcriptions of the broker are cross-checked on "
+             "every case.",
+        design="3/C08",
+        note="trusted: Lean kernel; the broker model (fetch range, LSO/HW bound, Kafka aborted-transaction index incl. "
+             "log-cleaner retention) transcribed in Python and Lean and compared per case; the harness encoder; byte "
+             "decoding (C09/C10) beyond six header accessors. Not proved: position after a partially consumed response "
+             "(tied only; C03). Isolation level on the wire observed directly, no model. Assumes v2 batches and "
+             "cleaner-consistent logs.",
+        technique="Lean 4 proof (closed-form invariant + log semantics) + T-diff on real PartitionRecords/FetchResult over encoded logs",
+    ),
 }
 
 NOT_YET = {}
